@@ -591,6 +591,7 @@ type c15Case struct {
 	RelPct  int    `json:"release_pct"`
 	MaxOwn  int    `json:"max_owned"`
 	Fault   int    `json:"storage_fault_per_mille"`
+	SkewS   int    `json:"store_clock_skew_s,omitempty"`
 	Sub     int64  `json:"subseed"`
 }
 
@@ -769,6 +770,11 @@ func c15RunCase(t *testing.T, run *vk.Run, ent *c15Entropy, cs c15Case, fam *c15
 	faults := &c15Faults{perMille: cs.Fault, live: &e.live}
 	cl.setHook(c15YieldHook(mrand.New(mrand.NewSource(cs.Sub^0x1e1d)), faults))
 	rf.perMille.Store(int64(cs.Fault)) // armed only now: seeding above ran without faults
+	if cl.mr != nil && cs.SkewS != 0 {
+		// environmental clock skew: the Redis host's clock differs from the wall clock
+		cl.mr.SetTime(time.Now().Add(time.Duration(cs.SkewS) * time.Second))
+		run.Count("cases_with_store_clock_skew", 1)
+	}
 	defer func() {
 		rf.perMille.Store(0)
 		run.Count("redis_setnx_failed_before_apply", rf.before.Load())
@@ -936,7 +942,7 @@ func c15RunCase(t *testing.T, run *vk.Run, ent *c15Entropy, cs c15Case, fam *c15
 
 // ---------------------------------------------------------------- tests
 
-func TestVerifC15Cluster(t *testing.T) {
+func c15TestCluster(t *testing.T) {
 	vk.Quiet()
 	run := vk.Start(t, "C15", "idgen-cluster")
 	defer run.Finish()
@@ -967,6 +973,9 @@ func TestVerifC15Cluster(t *testing.T) {
 				cs := c15Case{Backend: be, K: k, G: g, Threads: 4, Seed: seeds[r.Intn(len(seeds))], RelPct: 25 + r.Intn(40), Sub: r.Int63()}
 				if rep%3 != 0 {
 					cs.Fault = []int{5, 15, 40}[r.Intn(3)]
+				}
+				if (be == "redis" || be == "hybrid-shared") && rep%2 == 1 {
+					cs.SkewS = []int{-600, -120, 120, 600}[r.Intn(4)]
 				}
 				cs.Ops = 400 / (cs.G * cs.Threads)
 				cs.MaxOwn = 1 + r.Intn(1+4*k/(cs.G*cs.Threads)+1)
@@ -1012,7 +1021,7 @@ func TestVerifC15Cluster(t *testing.T) {
 // generator instance per thread on one gated memory store; every storage operation is
 // a scheduling point. All schedules with at most two preemptions are enumerated for the
 // small scripts, random schedules are drawn for the scripts that reach exhaustion.
-func TestVerifC15Sched(t *testing.T) {
+func c15TestSched(t *testing.T) {
 	vk.Quiet()
 	run := vk.Start(t, "C15", "idgen-sched")
 	defer run.Finish()
@@ -1221,7 +1230,7 @@ func TestVerifC15Sched(t *testing.T) {
 // the miniredis clock) and then all nodes generate again. The verdict does not depend
 // on how long was slept: an id that was returned and never released must not be
 // returned again, whatever the elapsed time below 30 days.
-func TestVerifC15Aging(t *testing.T) {
+func c15TestAging(t *testing.T) {
 	vk.Quiet()
 	run := vk.Start(t, "C15", "idgen-aging")
 	defer run.Finish()
@@ -1362,7 +1371,7 @@ func TestVerifC15Aging(t *testing.T) {
 // then legitimately re-acquired by the next SetNX. Interval rule for the lapse: it is a
 // Release whose interval runs from before the rewrite until after a sleep of twice the
 // TTL, so the instant of expiry lies certainly inside. Oracle unchanged (live-set model).
-func TestVerifC15Janitor(t *testing.T) {
+func c15TestJanitor(t *testing.T) {
 	vk.Quiet()
 	run := vk.Start(t, "C15", "idgen-janitor")
 	defer run.Finish()
@@ -1530,7 +1539,7 @@ func TestVerifC15Janitor(t *testing.T) {
 // TestVerifC15UUID: connection / mapping-instance / tunnel ids come from UUIDv7 and
 // are not tracked in the store. Within one process they must still be pairwise
 // distinct under the same entropy fault (the v7 clock sequence guarantees it).
-func TestVerifC15UUID(t *testing.T) {
+func c15TestUUID(t *testing.T) {
 	vk.Quiet()
 	run := vk.Start(t, "C15", "idgen-uuid")
 	defer run.Finish()
@@ -1594,4 +1603,16 @@ func TestVerifC15UUID(t *testing.T) {
 		}
 	}
 	run.Floor("uuid_ids", 10000)
+}
+
+// TestVerifC15Idgen runs the id-generator monitors one after the other (they share the
+// process-wide entropy fault and must not overlap with each other). The group as a whole
+// is parallel to TestVerifC15NodeLease, whose time is spent waiting for real heartbeats.
+func TestVerifC15Idgen(t *testing.T) {
+	t.Parallel()
+	t.Run("Cluster", c15TestCluster)
+	t.Run("Sched", c15TestSched)
+	t.Run("Aging", c15TestAging)
+	t.Run("Janitor", c15TestJanitor)
+	t.Run("UUID", c15TestUUID)
 }
